@@ -656,6 +656,69 @@ def rule_r11(repo, run):
               "steal the caller's reference - they need \"O\"" % borrowed[:4], wp.loc(wf))
 
 
+def rule_r12(repo, run):
+    R = run.rule("C06.R12", "a Python object that wraps a C++ instance releases it when the object goes away: the extension type has "
+                            "a tp_dealloc that calls the release function and tp_free, every object made with PyObject_New gets "
+                            "its destructor index, and owner(caller) results are given the index of `delete`")
+    wp = repo.module("wrapp")
+    wt = wp.func("Wrapp.write_tp_func")
+    # functions that every type gets, whatever the YAML `python: type:` list says
+    autos = set()
+    for l in ast.walk(wt):
+        if isinstance(l, ast.For) and isinstance(l.iter, (ast.List, ast.Tuple)) and \
+                any("selected.append" in str(wp.seg(st)) for st in l.body):
+            autos |= set(pyflow.const_str(e) for e in l.iter.elts)
+    for a in ast.walk(wt):
+        if isinstance(a, ast.Assign) and pyflow.is_name(a.targets[0], "selected") and isinstance(a.value, ast.List):
+            vals = set(pyflow.const_str(e) for e in a.value.elts)
+            autos = autos & vals if autos else vals
+    run.check(R, "wrapp.Wrapp.write_tp_func:dealloc-always", "dealloc" in autos,
+              "tp_dealloc is not among the type functions every extension type gets (%s): CPython calls tp_dealloc, never tp_del, "
+              "when the last reference to an instance of these types goes away - the C++ instance of every constructed object "
+              "and of every owner(caller) result is leaked" % sorted(x for x in autos if x), wp.loc(wt))
+    bodies = {}
+    for a in ast.walk(wt):
+        if isinstance(a, ast.Assign) and isinstance(a.targets[0], ast.Subscript) and pyflow.is_name(a.targets[0].value, "default_body") \
+                and pyflow.const_str(a.targets[0].slice):
+            bodies[pyflow.const_str(a.targets[0].slice)] = str(wp.seg(a.value))
+    body = bodies.get("dealloc", "")
+    ok = False
+    if body.startswith("self."):
+        fn = wp.func("Wrapp." + body[5:])
+        strs = " ".join(x.value for x in ast.walk(fn) if isinstance(x, ast.Constant) and isinstance(x.value, str))
+        calls = [pyflow.call_name(c) or "" for c in ast.walk(fn) if isinstance(c, ast.Call)]
+        for c in calls:
+            if c.startswith("self.tp_"):
+                strs += " " + " ".join(x.value for x in ast.walk(wp.func("Wrapp." + c[5:]))
+                                       if isinstance(x, ast.Constant) and isinstance(x.value, str))
+        ok = "{PY_release_memory_function}(self->{PY_type_dtor}" in strs and "tp_free" in strs
+    run.check(R, "wrapp.Wrapp.write_tp_func:dealloc-body", ok,
+              "the default body of tp_dealloc must release the C++ instance through {PY_release_memory_function}(self->"
+              "{PY_type_dtor}, ...) and then free the Python object with tp_free", wp.loc(wt))
+    # PyObject_New leaves the object uninitialised
+    py = tables.StatementTable(repo, "wrapp", "py_statements")
+    n = 0
+    for name, e in sorted(py.resolve_all("c++").items()):
+        code = [l for c in ("post_call", "post_parse", "pre_call", "call") for l in e.lines(c)]
+        if not any("PyObject_New(" in l for l in code):
+            continue
+        n += 1
+        text = " ".join(code)
+        run.check(R, "wrapp.py_statements[%s]:idtor" % name, "->{PY_type_dtor} =" in text and "->{PY_type_obj} =" in text,
+                  "the entry creates its object with PyObject_New, which does not initialise it, and never assigns "
+                  "->{PY_type_dtor}: tp_dealloc indexes the destructor table with whatever the memory contained", py.loc(e.raw))
+    run.floor(R, "entries that create an instance object", n, 3)
+    pr = wp.func("Wrapp.process_function_result")
+    regs = [c for c in ast.walk(pr) if isinstance(c, ast.Call) and (pyflow.call_name(c) or "").endswith("add_capsule_code")]
+    okr = any(any("owner" in str(wp.seg(t)) and "caller" in str(wp.seg(t)) and pol for t, pol in pyflow.dominating_tests(c, stop=pr))
+              and any("delete" in (x.value if isinstance(x.value, str) else "") for x in ast.walk(c) if isinstance(x, ast.Constant))
+              for c in regs)
+    run.check(R, "wrapp.Wrapp.process_function_result:owner-caller", okr,
+              "a class result with +owner(caller) must be given the index of a destructor that deletes it (add_capsule_code "
+              "under a test of the owner attribute): otherwise the instance the library hands over is never released",
+              wp.loc(pr))
+
+
 def run(repo, run, tier):
     tables.check_model_assumptions(repo)
     table = tables.StatementTable(repo, "statements", "fc_statements")
@@ -699,3 +762,4 @@ def run(repo, run, tier):
     rule_r9(repo, run, helpers)
     rule_r10(repo, run, helpers, table)
     rule_r11(repo, run)
+    rule_r12(repo, run)
